@@ -268,4 +268,146 @@ theorem free_restores {c : Cfg} {g : G} (hw : WFCfg c) (hr : Reach c g) (ops : L
           | frm f => simp [framesOf] at hpf
       exact this
 
+/-! ### Concurrent reservations under the thread lock -/
+
+/-- **Concurrent reservations are disjoint for every interleaving.**  Pool threads run programs
+    `progs` (lists of `(size, alignment)` requests); `sched` is any schedule; the atomic fetch-adds on
+    `d->pstack` happen in the order `interleave progs sched` (each reservation reads only its own
+    fetch-add result and quantities that are constant while the lock is held).  Provided the summed
+    requests do not wrap the 64-bit counter, the granted blocks are pairwise disjoint, aligned, and lie
+    in the gap `[arena + parena, bottom - pstack₀)` that was free when the lock was taken — hence they
+    overlap neither the arena region nor any object live at that moment — whatever happens to the
+    requests that overflow; and every reservation is accounted for in the final `pstack`. -/
+theorem concurrent_reservations_disjoint {c : Cfg} (hw : WFCfg c) (s : State)
+    (hl : s.threadlock = true) (hpa : s.parena ≤ c.narena)
+    (progs : List (List (Nat × Nat))) (sched : List Nat)
+    (hal : ∀ p ∈ progs, ∀ r ∈ p, 0 < r.2) (hnw : s.pstack + totalAll c progs < W) :
+    (granted (interleave progs sched) (lockedRun c s (interleave progs sched)).1).Pairwise
+      (fun x y => x.1.Disjoint y.1) ∧
+    (∀ x ∈ granted (interleave progs sched) (lockedRun c s (interleave progs sched)).1,
+      c.base + s.parena ≤ x.1.addr ∧ x.1.addr + x.1.size ≤ c.base + c.narena - s.pstack ∧
+      x.1.addr % x.2 = 0) ∧
+    (lockedRun c s (interleave progs sched)).2 =
+      { s with pstack := s.pstack + reserved c (interleave progs sched) } := by
+  have ht := interleave_total c sched progs
+  refine locked_core hw _ s hl hpa (fun r hr => ?_) (by omega)
+  obtain ⟨q, hq, hrq⟩ := ht.2 r hr
+  exact hal q hq r hrq
+
+/-- the blocks reserved under the lock are disjoint from everything that was live when the lock was
+    taken (sequential invariant + the gap property above). -/
+theorem locked_blocks_disjoint_from_live {c : Cfg} {g : G} (hw : WFCfg c) (hr : Reach c g)
+    (reqs : List (Nat × Nat)) (hal : ∀ r ∈ reqs, 0 < r.2) (hnw : g.s.pstack + total c reqs < W) :
+    ∀ x ∈ granted reqs (lockedRun c { g.s with threadlock := true } reqs).1,
+      (∀ o ∈ g.objs, x.1.Disjoint o.ext) ∧ (∀ b ∈ g.arena, b.Disjoint x.1) := by
+  have hi := all_sequences_safe hw hr
+  have hfit := hi.2.1
+  have hcore := locked_core hw reqs { g.s with threadlock := true } rfl (by simp only; omega) hal hnw
+  intro x hx
+  have hb := hcore.2.1 x hx
+  simp only at hb
+  refine ⟨fun o ho => ?_, fun b hbm => ?_⟩
+  · have := chain_bounds hi.2.2.1 o ho
+    exact Or.inl (by omega)
+  · have := (achain_bounds hi.2.2.2.2.2.2).2 b hbm
+    exact Or.inl (by omega)
+
+/-- the locked run changes nothing but `pstack`. -/
+theorem lockedRun_only_pstack (c : Cfg) : ∀ (reqs : List (Nat × Nat)) (s : State), s.threadlock = true →
+    ∃ p, (lockedRun c s reqs).2 = { s with pstack := p }
+  | [], s, _ => ⟨s.pstack, rfl⟩
+  | (size, al) :: rest, s, hl => by
+    rw [lockedRun_cons]
+    have h1 : ∃ p, (stackAlloc c s size al).2 = { s with pstack := p } := by
+      obtain ⟨pa, ps, pb, tl, ms, ma, fr⟩ := s
+      simp only at hl; subst hl
+      unfold stackAlloc
+      simp only [↓reduceIte]
+      split
+      · exact ⟨ps, rfl⟩
+      · split <;> exact ⟨_, rfl⟩
+    obtain ⟨p, hp⟩ := h1
+    rw [hp]
+    obtain ⟨p', hp'⟩ := lockedRun_only_pstack c rest { s with pstack := p } hl
+    exact ⟨p', by rw [hp']⟩
+
+/-- **`mju_dispatch` returns with the stack pointer it started with**, for every list of task
+    reservations in every order, *including* reservations that overflow (whose `pstack` increments are
+    never rolled back by `stackalloc` itself) and sizes that wrap: the frame marked before the lock is
+    taken is popped after it is released.  If the initial `mj_markStack` overflows, the state is unchanged. -/
+theorem dispatch_restores {c : Cfg} {g : G} (hw : WFCfg c) (hr : Reach c g) (reqs : List (Nat × Nat)) :
+    ((dispatch c g.s reqs).1 = .error ∧ (dispatch c g.s reqs).2.2 = g.s) ∨
+    ((dispatch c g.s reqs).1 = .unit ∧
+      (dispatch c g.s reqs).2.2.pstack = g.s.pstack ∧ (dispatch c g.s reqs).2.2.pbase = g.s.pbase ∧
+      (dispatch c g.s reqs).2.2.frames = g.s.frames ∧ (dispatch c g.s reqs).2.2.parena = g.s.parena ∧
+      (dispatch c g.s reqs).2.2.threadlock = false) := by
+  have hi := all_sequences_safe hw hr
+  obtain ⟨hl, hfit, _, _, _, _, _⟩ := hi
+  have hw' := hw; unfold WFCfg at hw'
+  rcases markStack_seq hw hl hfit with h | ⟨a, s', nt, h, h1, h2, h3, h4, h5, h6, h7, h8, _⟩
+  · left; simp [dispatch, h]
+  · right
+    obtain ⟨p, hp⟩ := lockedRun_only_pstack c reqs { s' with threadlock := true } rfl
+    have ha : a ≠ 0 := by omega
+    have hsub : sub64 (bottom c) (c.base + c.narena - g.s.pstack) = g.s.pstack := by
+      rw [bottom_eq hw, sub64_eq (by omega) (by omega)]; omega
+    simp only [dispatch, h, hp, freeStack, Bool.false_eq_true, ↓reduceIte, h2, ha, h3, hsub, h1]
+    trace_state
+    simp
+
+/-! ### The guard the code lacks: wrap-around witnesses -/
+
+/-- a 4 KiB arena at a 64-byte aligned address, as in the replay of `checks/c19.py`. -/
+def wc : Cfg := ⟨35184372088832, 4096, 0⟩
+
+example : WFCfg wc := by unfold WFCfg; decide +kernel
+
+/-- **Missing guard, unlocked path.**  `mj_stackAllocByte(d, SIZE_MAX, 8)` on a fresh mjData raises no
+    error and returns `arena + narena` (one past the end of the buffer) for a block of 2^64-1 bytes:
+    `size + fastmod(start, alignment)` wraps to 0 in `stack_required_bytes`. -/
+theorem stackAlloc_wrap_witness :
+    stackAlloc wc State.init (W - 1) 8 = (.ptr (wc.base + wc.narena), State.init) := by decide +kernel
+
+/-- **Missing guard, thread-lock path.**  With 64 bytes already reserved, a request of 2^64-16 bytes
+    (`mj_stackAllocNum(d, 2^61-2)` passes that function's own guard) is granted: `old_pstack + alloc_size`
+    wraps, the returned block starts *above* the previous top (inside the live reservation) and
+    `pstack` goes down from 64 to 55. -/
+theorem locked_wrap_witness :
+    stackAllocElems wc { State.init with threadlock := true, pstack := 64 } (2305843009213693950) 8 =
+      (.ptr (wc.base + wc.narena - 64 + 16), { State.init with threadlock := true, pstack := 55 }) := by
+  decide +kernel
+
+/-- **Missing guard, arena.**  After 256 bytes are handed out, `mj_arenaAllocByte(d, 2^64-128, 8)` is
+    granted (`parena + padding + bytes` wraps) and moves `parena` *back* to 128, so that the next
+    allocation of 64 bytes overlaps the first block. -/
+theorem arena_wrap_witness :
+    let s1 := (arenaAlloc wc State.init 256 8).2
+    let s2 := (arenaAlloc wc s1 (W - 128) 8).2
+    (arenaAlloc wc State.init 256 8).1 = .ptr wc.base ∧
+    (arenaAlloc wc s1 (W - 128) 8).1 = .ptr (wc.base + 256) ∧ s2.parena = 128 ∧
+    (arenaAlloc wc s2 64 8).1 = .ptr (wc.base + 128) := by decide +kernel
+
+/-- `fastmod` is `%` on all of `size_t × size_t` (the power-of-two fast path is correct). -/
+theorem fastmod_correct {a b : Nat} (ha : a < W) (hb : b < W) : fastmod a b = a % b := fastmod_eq_mod ha hb
+
+/-- `mj_stackAllocNum/Int`'s own guard implies the no-wrap condition in the regular (non-ASAN) build. -/
+theorem elems_guard_suffices {c : Cfg} (s : State) (hrz : c.rz = 0) (n : Nat) :
+    NoWrap c s (.num n) ∧ NoWrap c s (.int n) := by
+  unfold NoWrap W
+  simp only [hrz]
+  constructor <;> omega
+
+/-! ### Non-vacuity -/
+
+/-- a concrete reachable history with live blocks, frames and arena blocks. -/
+example : ∃ g, Reach wc g ∧ g.objs.length = 4 ∧ g.arena.length = 1 ∧ g.s.frames.length = 1 := by
+  refine ⟨(gstep wc (gstep wc (gstep wc (gstep wc (gstep wc G.init (.alloc 100 8)).2 .mark).2
+            (.alloc 7 64)).2 (.arena 100 8)).2 (.num 10)).2, ?_, by decide +kernel, by decide +kernel, by decide +kernel⟩
+  refine Reach.step (Reach.step (Reach.step (Reach.step (Reach.step Reach.init rfl ?_) rfl trivial) rfl ?_) rfl ?_) rfl ?_
+  all_goals (unfold NoWrap W; first | decide +kernel | omega)
+
+example : balanced 0 [.alloc 8 8, .mark, .num 3, .free, .arena 16 8] = true := by decide
+
+example : interleave [[(8, 8), (16, 16)], [(24, 8)]] [1, 0, 1, 0, 5] = [(24, 8), (8, 8), (16, 16)] := by decide
+
 end MjProof.C19
